@@ -175,12 +175,15 @@ fn check_enc_with_sizes(c: &EncCase, info: &mut Info) -> Result<(), String> {
     check_enc_any(c, info)
 }
 
+crate::long_sub!(run_long_history, [17]);
+
 pub fn def() -> PropDef {
     PropDef {
         id: "C05",
         rule: "points of every class of G1/G2 (identity, subgroup, walks P+[k]G giving tens of thousands of different points incl. x with leading zero bits, full-curve, small order, order l*r, negated, same-y) as affine values and through generated Jacobian representatives; both encodings compared byte-for-byte with the model encoder (lengths included) and decoded back (checked decoder for subgroup points, unchecked for the rest), from the bytes and directly from the EncodedPoint value the encoder returned (both decoders, both constructors; verdicts as the bytes determine); reverse direction: the C04 byte-string generator, every accepted string must re-encode to itself. Non-trivial = non-identity point (forward) / accepted string (reverse); distinct = distinct cases",
         needs_pairing: false,
         subs: vec![
+            Box::new(crate::engine::EnumSub { name: "long-history", rule: super::longhist::RULE, run: run_long_history, replay: super::longhist::replay, exhaustive: false }),
             Box::new(Sub { name: "encode", rule: "bytes == model ZCash encoding; decode(encode(P)) == P", quick: 7_500, thorough: 80_000, strategy: || boxed(enc_case_strategy()), check: check_enc_with_sizes }),
             Box::new(Sub { name: "reencode-accepted", rule: "for every byte string a decoder accepts: encode(decode(s)) == s", quick: 18_000, thorough: 200_000, strategy: || boxed(dec_case_strategy()), check: check_reencode_any }),
             super::corpus_sub_decode(),
